@@ -4,6 +4,7 @@
 Rebuild changed .pyx files first:  /venv/bin/python setup.py build_ext -j8 --inplace   (run inside the worktree)
 """
 import os, sys, runpy
+os.environ.setdefault("OPENBLAS_NUM_THREADS", "1"); os.environ.setdefault("OMP_NUM_THREADS", "1")
 here = os.path.dirname(os.path.abspath(__file__))
 m = sys.modules.get("cherab")
 if m is not None:
